@@ -206,6 +206,12 @@ class SimReactor(object):
             return ("hung", None)
         return box[0]
 
+    def drop_pending(self):
+        """A simulated process died: its timers die with it."""
+        for (t, s, dc) in self._heap:
+            dc._sim_seq = -1
+        self._heap = []
+
     def digest(self):
         return self._hash.hexdigest()
 
